@@ -96,6 +96,7 @@ def build():
     p.spec_funcs["n_events"] = lambda interp, name: sum(1 for e in interp.ctx.events if e[0] == name)
     p.spec_funcs["ev"] = lambda i, k: i.ctx.events[k] if isinstance(k, int) and 0 <= k < len(i.ctx.events) else ("<none>", None, None, None)
     p.spec_funcs["events_named"] = lambda interp, name: PyList([e for e in interp.ctx.events if e[0] == name])
+    p.spec_funcs["is_tag"] = lambda interp, o, tag: isinstance(o, Opaque) and o.tag == tag
     EXT = {".z": "zlib", ".gz": "gzip", ".bz2": "bz2", ".lzma": "lzma", ".xz": "xz", ".lz4": "lz4"}
     p.spec_funcs["ext_method"] = lambda interp, fn: next((m for e, m in EXT.items() if isinstance(fn, str) and fn.endswith(e)), None)
 
@@ -435,6 +436,103 @@ def build():
             "no_compression_request_and_no_compression_extension_means_raw": "implies((compress is False or compress == 0) and not filename.endswith('.gz'), wf() is None)",
             "extension_of_a_builtin_format_still_selects_it": "implies(filename.endswith('.gz'), wf() is not None and wf()[2] == 'gzip')",
         },
+    ))
+
+    # ------------------------------------------------------------------ load / _unpickle: the read side of the dispatch
+    # load(path | pathlib.Path | open file object, mmap_mode, ensure_native_byte_order): the reader is chosen from the CONTENT by
+    # _validate_fileobject_and_memmap (contract above) and what it yields - file object and validated mmap mode - is what the unpickler gets;
+    # a path is opened 'rb' once and closed again, a caller's file object is used as it is and left open; arrays are coerced to the native
+    # byte order exactly when they are not memory-mapped ('auto').
+    def validate_cm(interp, args, kwargs):
+        ctx = interp.ctx
+        ctx.events.append(("validate", args[0], args[1], args[2] if len(args) > 2 else kwargs.get("mmap_mode")))
+        k = ctx.choose(3, "validated-as")
+        mode = args[2] if len(args) > 2 else kwargs.get("mmap_mode")
+        if k == 0:
+            y = (args[0], mode if ctx.choose(2, "mode-kept") == 0 else None)           # uncompressed: the file itself
+        elif k == 1:
+            y = (Opaque("decompressing-reader", None, under=args[0]), None)                # compressed: a reader on top, never memory-mapped
+        else:
+            y = (args[1], mode)                                                            # file of joblib < 0.10: the NAME is handed back
+        ctx.ghost["YIELDED"] = y
+        return Opaque("validatecm", None, yields=y)
+
+    p.models["enter:validatecm"] = lambda i, cm: cm.attrs["yields"]
+    p.models["exit:validatecm"] = lambda i, cm, e: (i.ctx.events.append(("validate-exit",)), False)[1]
+    p.models["enter:rawfile"] = lambda i, cm: cm
+    p.models["exit:rawfile"] = lambda i, cm, e: (i.ctx.events.append(("close", cm)), False)[1]
+
+    def unpickle_stub(interp, args, kwargs):
+        interp.ctx.events.append(("_unpickle", args[0], kwargs.get("ensure_native_byte_order", args[1] if len(args) > 1 else None), kwargs.get("filename", ""), kwargs.get("mmap_mode")))
+        return Opaque("loaded", None)
+
+    def compat_stub(interp, args, kwargs):
+        interp.ctx.events.append(("load_compatibility", args[0]))
+        return Opaque("loaded-legacy", None)
+
+    def load_source(interp):
+        k = interp.ctx.choose(4, "source")
+        if k == 0:
+            return STR.fresh(interp.ctx, "path")
+        if k == 1:
+            return Opaque("pathobj", None, isinstance=("Path",), hasattr={"read": False})
+        o = Opaque("userfile", None, isinstance=(), hasattr={"read": True, "name": k == 2})
+        if k == 2:
+            o.attrs["name"] = STR.fresh(interp.ctx, "fname")
+        return o
+
+    p.models["str:pathobj"] = lambda i, v: i.ctx.ghost.setdefault("PATHSTR", STR.fresh(i.ctx, "pathstr"))
+    lglob = dict(glob)
+    lglob.update({"_validate_fileobject_and_memmap": lambda interp: _Fn(validate_cm), "_unpickle": lambda interp: _Fn(unpickle_stub),
+                  "load_compatibility": lambda interp: _Fn(compat_stub), "Path": lambda interp: Opaque("pyclass", "Path", classname="Path")})
+    p.spec_funcs["yielded"] = lambda interp: interp.ctx.ghost.get("YIELDED")
+    p.spec_funcs["is_path"] = lambda interp, f: not (isinstance(f, Opaque) and f.tag == "userfile")
+    UNP = "events_named('_unpickle')"
+    p.add(Contract(
+        NP, "load", props=["C03", "C19"], globals=lglob,
+        params=dict(filename=load_source, mmap_mode=OneOf(None, "r", "c"), ensure_native_byte_order=OneOf("auto", True, False)),
+        ensures={
+            "reader_chosen_from_the_content_once": "n_events('validate') == 1 and events_named('validate')[0][3] is mmap_mode",
+            "a_path_is_opened_for_reading_once_and_closed": "implies(is_path(filename), n_events('open') == 1 and events_named('open')[0][2] == 'rb' and n_events('close') == 1 "
+                                                            "and events_named('validate')[0][1] is events_named('close')[0][1])",
+            "a_callers_file_object_is_used_as_it_is_and_left_open": "implies(not is_path(filename), n_events('open') == 0 and n_events('close') == 0 and events_named('validate')[0][1] is filename)",
+            "the_unpickler_reads_what_the_validation_yielded": "implies(n_events('_unpickle') == 1, %s[0][1] is yielded()[0])" % UNP,
+            "arrays_of_a_path_are_mapped_in_the_validated_mode": "implies(is_path(filename) and n_events('_unpickle') == 1, %s[0][4] is yielded()[1])" % UNP,
+            "native_byte_order_exactly_when_not_memory_mapped_by_default": "implies(n_events('_unpickle') == 1 and ensure_native_byte_order == 'auto', %s[0][2] == (mmap_mode is None))" % UNP,
+            "an_explicit_byte_order_request_is_passed_on": "implies(n_events('_unpickle') == 1 and ensure_native_byte_order != 'auto', %s[0][2] is ensure_native_byte_order)" % UNP,
+            "exactly_one_loader_runs": "n_events('_unpickle') + n_events('load_compatibility') == 1",
+            "legacy_files_go_to_the_compatibility_loader_by_name": "implies(n_events('load_compatibility') == 1, events_named('load_compatibility')[0][1] is yielded()[0])",
+        },
+        exsures={"ValueError": {"only_native_byte_order_together_with_mmap": "ensure_native_byte_order is True and mmap_mode is not None",
+                                "nothing_opened": "n_events('open') == 0 and n_events('validate') == 0"}},
+    ))
+
+    def new_unpickler(interp, args, kwargs):
+        interp.ctx.events.append(("NumpyUnpickler", args[0], args[1], args[2], kwargs.get("mmap_mode", args[3] if len(args) > 3 else None)))
+        return Opaque("unpickler", None, compat_mode=BOOL.fresh(interp.ctx, "compat_mode"))
+
+    def unpickler_load(interp, recv, args, kwargs):
+        interp.ctx.events.append(("unpickler.load",))
+        k = interp.ctx.choose(3, "unpickler-outcome")
+        if k == 1:
+            raise PyRaise(SExc(BUILTIN_EXC["UnicodeDecodeError"], ()))
+        if k == 2:
+            raise PyRaise(SExc(BUILTIN_EXC["EOFError"], ()))
+        return Opaque("loaded", None)
+
+    p.models["unpickler.load"] = unpickler_load
+    p.log_calls.add("warnings.warn")
+    uglob = dict(glob)
+    uglob["NumpyUnpickler"] = lambda interp: _Fn(new_unpickler)
+    p.add(Contract(
+        NP, "_unpickle", props=["C03", "C14"], globals=uglob,
+        params=dict(fobj=OpaqueOf("reader"), ensure_native_byte_order=BOOL, filename=STR, mmap_mode=OneOf(None, "r", "c")),
+        ensures={"what_the_unpickler_built": "is_tag(result, 'loaded')",
+                 "one_unpickler_on_exactly_these_arguments": "n_events('NumpyUnpickler') == 1 and events_named('NumpyUnpickler')[0][1] is filename and events_named('NumpyUnpickler')[0][2] is fobj "
+                                                             "and events_named('NumpyUnpickler')[0][3] is ensure_native_byte_order and events_named('NumpyUnpickler')[0][4] is mmap_mode",
+                 "loaded_once": "n_events('unpickler.load') == 1"},
+        # C14: a damaged file makes load RAISE (whatever the unpickler raises passes through; the python-2 hint keeps it an exception)
+        exsures={"ValueError": {}, "EOFError": {}},
     ))
 
     # ------------------------------------------------------------------ structural: prefix-freedom on the REAL constants
